@@ -19,23 +19,7 @@ include!(concat!(env!("IPA_VERIF_DIR"), "/modules.rs"));
 
 #[test]
 fn run() {
-    use common::{Env, Report};
-    println!();
-    let env = Env::from_env();
+    let env = common::Env::from_env();
     let (level, subs) = dispatch(&env);
-    let replay = env.replay.clone();
-    let mut report = Report::new(env, level);
-    if let Some(path) = replay {
-        let reproduced = report.replay(&subs, &path);
-        let n = report.finish();
-        println!("[verif] replay {}: {}", path, if reproduced { "violation reproduced" } else { "no violation" });
-        std::process::exit(if n > 0 { 1 } else { 0 });
-    }
-    for s in &subs {
-        report.run(s);
-    }
-    let n = report.finish();
-    // exit directly: 0 = property held on everything explored, 1 = violation (libtest's own
-    // failure status 101 is reserved for harness errors and mapped to "inconclusive" by ./check)
-    std::process::exit(if n > 0 { 1 } else { 0 });
+    common::run_main(env, level, subs);
 }
